@@ -6,7 +6,7 @@ id="$1"; tier="${2:-quick}"
 cd "$(dirname "$0")"
 export GOFLAGS=-mod=mod GOPROXY=off GOSUMDB=off GOTOOLCHAIN=local GOWORK=off
 REPO="${VERIF_REPO:-/repo}"
-if [ ! -x bin/bblint ] || [ -n "$(find tool/cmd -newer bin/bblint -name '*.go' 2>/dev/null | head -1)" ]; then
+if [ ! -x bin/bblint ] || [ -n "$(find tool/cmd -newer bin/bblint -type f 2>/dev/null | head -1)" ]; then
   (cd tool && GOFLAGS=-mod=vendor go build -o ../bin/bblint ./cmd/bblint) || { echo "VIOLATION property=$id replay=- rule=analyser-build-failure"; exit 1; }
 fi
 mkdir -p evidence
